@@ -372,16 +372,37 @@ def generation_case(ctx, kind, files, main, oname, opts, mut, traces, tag, must_
         dups = ast_duplicates(gen.files)
         # F28: two classes (two fields) collide only because one original name had to be rebuilt from the safe prefix
         f28 = any("class name" in d and any(needs_safe_prefix(o) for o in origs) for d, origs in dups)
+        # names of a WSDL (operations, port types, bindings, parts) are not kept in the generated service classes: the
+        # names in the source stand in for the originals of classes generated from them
+        wsdl_names = []
+        shadowed_extra: set = set()
+        if kind == "wsdl":
+            import re as _re2
+
+            for text in files.values():
+                if isinstance(text, str):
+                    wsdl_names += _re2.findall(r'name="([^"]*)"', text)
         for d, origs in dups:
             tags = ["F28"] if any(needs_safe_prefix(str(o)) for o in origs) else []
+            if not tags and kind == "wsdl" and "class name" in d and "type" in d.lower() and any(needs_safe_prefix(n) for n in wsdl_names):
+                tags = ["F28"]
+            if not tags and kind == "json-sample" and "not valid Python" in d and f47_selector(files):
+                tags = ["F47"]
+            if tags == ["F28"] and "class name" in d:
+                f28 = True
+                m = __import__("re").search(r"class name '([^']+)'", d)
+                if m:
+                    shadowed_extra.add(m.group(1))
             ctx.violation(f"{kind} ({oname}): {d}", {**info, "generated": {k: v[:3000] for k, v in gen.files.items()}, "finding_tags": tags})
         import re as _re
 
-        shadowed = {m.group(1) for d, origs in dups if any(needs_safe_prefix(str(o)) for o in origs) for m in [_re.search(r"class name '([^']+)'", d)] if m}
+        shadowed = shadowed_extra | {m.group(1) for d, origs in dups if any(needs_safe_prefix(str(o)) for o in origs) for m in [_re.search(r"class name '([^']+)'", d)] if m}
         for pr in problems:
             # the shadowed class makes a compound field see the same type twice, or a field annotation resolve to the
             # class that replaced the one it means (e.g. a WSDL service description): consequences of the same collision
             tags = ["F28"] if f28 and ("ambiguous types" in pr or any(_re.search(rf"\b{_re.escape(n)}\b", pr) for n in shadowed)) else []
+            if not tags and kind == "json-sample" and "SyntaxError" in pr and f47_selector(files):
+                tags = ["F47"]
             ctx.violation(f"{kind} ({oname}): {pr}", {**info, "generated": {k: v[:3000] for k, v in gen.files.items()}, "finding_tags": tags})
     finally:
         gen.cleanup()
